@@ -11,7 +11,7 @@ ENTRIES = []
 RULE = ("irregular, shuffled abscissae (40% on grid nodes, points exactly at xmin/xmax, points outside [xmin,xmax]), random xmin, step, "
         "xmax (xmax on or off the grid), every bin populated; second data vector and coefficients for linearity; "
         "non-trivial = >= 3 bins and >= 1 point outside the range or off the nodes")
-DIST = ["onnodes", "shuffled"]
+DIST = ["onnodes", "shuffled", "dups"]
 SHRINK = None
 TRUSTED = ["lean/PystogVerif/Model/Rebin.lean is a hand-written model of Pre_Proc.rebin (modelled, not verified), tied to /repo by the correspondence run"]
 
@@ -29,6 +29,11 @@ def gen(rng, i, tier):
         per = rng.integers(1, 4, nb + 1)
         x = np.concatenate([g + rng.uniform(0, xdiv, p) for g, p in zip(grid, per)] + [grid[:1], [xmax]])
         x = np.concatenate([x, rng.uniform(xmin - 1, xmin - 1e-3, 3), rng.uniform(xmax + 1e-3, xmax + 1, 3)])
+    dups = False
+    if rng.random() < 0.25 and len(x) > 3:
+        # bit-identical repeated abscissae (two runs on the same grid concatenated): every point counts
+        x = np.concatenate([x, x[rng.integers(0, len(x), int(rng.integers(1, 6)))]])
+        dups = True
     r = rng.random()
     shuffled = bool(r < 0.5)
     if shuffled:
@@ -41,7 +46,7 @@ def gen(rng, i, tier):
     y = rng.normal(size=len(x)) * 2 + 1
     z = rng.normal(size=len(x))
     return dict(x=tolist(x), y=tolist(y), z=tolist(z), xmin=xmin, xdiv=xdiv, xmax=float(xmax), a=float(rng.normal()), b=float(rng.normal()),
-                c=float(rng.normal() * 3), onnodes=onnodes, shuffled=shuffled, perm=[int(t) for t in rng.permutation(len(x))])
+                c=float(rng.normal() * 3), onnodes=onnodes, shuffled=shuffled, dups=dups, perm=[int(t) for t in rng.permutation(len(x))])
 
 
 def hat_reference(x, y, xmin, xdiv, xmax):
@@ -93,7 +98,7 @@ def evaluate(case):
     inr = (x >= xmin) & (x <= xmax)
     if (v < y[inr].min() - 1e-12).any() or (v > y[inr].max() + 1e-12).any():
         fails.append("output outside [min, max] of the in-range data")
-    if case["onnodes"] and not case["shuffled"]:
+    if case["onnodes"] and not case["shuffled"] and not case.get("dups"):
         m = min(len(v), len(y))
         if exceeds(np.abs(v[:m] - y[:m]).max(), 1e-7 * max(1.0, float(np.abs(y).max()))):
             fails.append("data already on the grid (one per node) do not come back unchanged")
